@@ -41,6 +41,8 @@ def run(ctx):
     for i in range(ctx.n(200, 2000)):
         kind = rng.choice(['Uniform', 'LogUniform', 'LogUniform_lin', 'Gaussian', 'LogGaussian', 'LogGaussian_lin'])
         mag = rng.choice([1e-12, 1e-6, 1e-3, 1, 1e3, 1e12])
+        if kind == 'LogUniform_lin' and rng.random() < 0.3:
+            mag = rng.choice([1e-18, 1e-25, 1e-40])       # abundances far below machine epsilon are ordinary linear bounds
         a, b = mag * rng.uniform(0.01, 10), mag * rng.uniform(0.01, 10)
         if kind in ('Uniform', 'LogUniform') and rng.random() < 0.4:
             a, b = a * rng.choice([1, -1]), b * rng.choice([1, -1])
